@@ -3,7 +3,7 @@
     proofs in Issuance/*.v.  Each theorem is followed by [Print Assumptions]. *)
 From Coq Require Import List Bool Arith Lia.
 From CM Require Import Issuance.Model Issuance.Proofs Issuance.Invariants Issuance.OwnFault
-  Issuance.NoReissueTL Issuance.NoReissue Issuance.Refuted.
+  Issuance.NoReissueTL Issuance.NoReissue Issuance.AgreeTL Issuance.Agree Issuance.Refuted.
 Import ListNotations.
 
 (** invariant behind F1: a request inside the locked region (re-check ... deferred release) owns
@@ -48,6 +48,17 @@ Theorem C01_no_reissue_after_save_partial : forall cs st n L s l s1 t th es s2,
 Proof. exact no_reissue_after_save. Qed.
 Print Assumptions C01_no_reissue_after_save_partial.
 
+(** ... and the same from the start: storage that already holds a complete bundle whose
+    certificate is not due -- no request that touches the name ever enters the issuer *)
+Theorem C01_no_issue_on_fresh_storage_partial : forall cs st n L ce es s,
+  canon0 n L cs ->
+  st (SK n KKey) <> None -> st (SK n KCrt) = Some (VCrt ce) -> st (SK n KMeta) <> None -> c_due ce = false ->
+  runs (truthful n) (init_state cs st) es s ->
+  sto (sh s) (SK n KCrt) = Some (VCrt ce) /\
+  Forall (fun e => forall i, e_op e = OIssS i -> forall c, nth_error cs (e_tid e) = Some c -> ~ touches n c) es.
+Proof. exact no_issue_on_fresh_storage. Qed.
+Print Assumptions C01_no_issue_on_fresh_storage_partial.
+
 (** R: with a Unicode spelling the pre-check looks under Safe(name) while the save went under the
     punycode name: the second ObtainCertSync issues again, without any fault *)
 Theorem C01_no_reissue_refuted_spelling :
@@ -60,6 +71,47 @@ Theorem C01_no_reissue_refuted_spelling :
       i < j /\ c_vk c = n.
 Proof. exact no_reissue_refuted_spelling. Qed.
 Print Assumptions C01_no_reissue_refuted_spelling.
+
+(** F3 (partial: canonical spellings; requests on the name are not cancelled and their existence
+    checks not falsified; no unlocked load of ManageSync overlaps a save [ok3]; stated for callers
+    whose cached certificate is not due -- that a caller never ends with a due certificate after
+    its own obtain/renew is not proved): every ManageSync caller that returned successfully holds
+    in its cache exactly the certificate that storage holds, hence all of them the same one *)
+Theorem C01_callers_agree_partial : forall cs st n L es s,
+  canon0 n L cs -> runs (ok3 n) (init_state cs st) es s ->
+  forall t th ce, thread_at s t th -> touches n (cfg th) -> c_prog (cfg th) = PManage ->
+    tpc th = PDone ROk -> seen th = Some ce -> c_due ce = false ->
+    sto (sh s) (SK n KCrt) = Some (VCrt ce).
+Proof. exact callers_agree. Qed.
+Print Assumptions C01_callers_agree_partial.
+
+Theorem C01_callers_agree_pairwise_partial : forall cs st n L es s t1 th1 ce1 t2 th2 ce2,
+  canon0 n L cs -> runs (ok3 n) (init_state cs st) es s ->
+  thread_at s t1 th1 -> touches n (cfg th1) -> c_prog (cfg th1) = PManage -> tpc th1 = PDone ROk ->
+  seen th1 = Some ce1 -> c_due ce1 = false ->
+  thread_at s t2 th2 -> touches n (cfg th2) -> c_prog (cfg th2) = PManage -> tpc th2 = PDone ROk ->
+  seen th2 = Some ce2 -> c_due ce2 = false ->
+  ce1 = ce2.
+Proof. exact callers_agree_pairwise. Qed.
+Print Assumptions C01_callers_agree_pairwise_partial.
+
+(** the restriction [ok3] is met by non-trivial runs: the second caller arrives, finds nothing,
+    queues for the lock while the first one issues and saves, then takes its turn, finds the
+    certificate under the lock and loads it *)
+Example C01_callers_agree_nontrivial :
+  exists s es th0 th1 ce,
+    runs (ok3 0) (init_state [manage_canon; manage_canon] no_sto) es s /\
+    thread_at s 0 th0 /\ thread_at s 1 th1 /\ tpc th0 = PDone ROk /\ tpc th1 = PDone ROk /\
+    seen th0 = Some ce /\ seen th1 = Some ce /\ c_due ce = false /\
+    length (filter (fun e => match e_op e with OIssS _ => true | _ => false end) es) = 1.
+Proof.
+  destruct (run_chk 0 (init_state [manage_canon; manage_canon] no_sto) (sched ([1;1;1] ++ rep 18 0 ++ rep 10 1)))
+    as [[s es]|] eqn:R; [|vm_compute in R; discriminate].
+  exists s, es. pose proof (run_chk_runs _ _ _ _ _ R) as Hr.
+  vm_compute in R. inversion R; subst s es; clear R.
+  do 3 eexists. split; [exact Hr|]. unfold thread_at; simpl.
+  split; [reflexivity|]. split; [reflexivity|]. repeat split; reflexivity.
+Qed.
 
 (** F4a: as long as no Unlock call itself fails, every reachable state with an unfinished
     request has a step that needs no fault (a waiter is blocked only while a live holder can move) *)
